@@ -16,8 +16,8 @@ ID = "C15"
 CASES = {"quick": 4000, "thorough": 60000}
 FLOOR = {"quick": 3600, "thorough": 55000}
 FLOOR_COUNTERS = {
-    "quick": {"image_shift_pairs": 3500, "half_cell_pairs": 600, "mahalanobis_calls": 3500, "triangle_triples": 3500},
-    "thorough": {"image_shift_pairs": 55000, "half_cell_pairs": 9000, "mahalanobis_calls": 55000, "triangle_triples": 55000},
+    "quick": {"all_points_inside_one_cell": 1200, "large_unit_precisions": 250, "image_shift_pairs": 3500, "half_cell_pairs": 600, "mahalanobis_calls": 3500, "triangle_triples": 3500},
+    "thorough": {"all_points_inside_one_cell": 18000, "large_unit_precisions": 4000, "image_shift_pairs": 55000, "half_cell_pairs": 9000, "mahalanobis_calls": 55000, "triangle_triples": 55000},
 }
 RULE = (
     "case = point sets X, Y in 1-6 dimensions with coordinates up to +-50 cells, positive rectangular cell (anisotropy up "
@@ -38,6 +38,11 @@ def gen(rng, tier, index):
         cell = cell * 10.0 ** rng.uniform(-1.5, 1.5, size=d)
     X = rng.uniform(-50, 50, size=(nx, d)) * cell * (rng.random() < 0.5) + rng.uniform(-1, 1, size=(nx, d)) * cell
     Y = rng.uniform(-50, 50, size=(ny, d)) * cell * (rng.random() < 0.5) + rng.uniform(-1, 1, size=(ny, d)) * cell
+    where = gens.pick(rng, ("anywhere", "anywhere", "centred_cell", "positive_cell"))
+    if where == "centred_cell":  # every coordinate inside [-L/2, L/2]: pairs can still be > L/2 apart
+        X, Y = rng.uniform(-0.5, 0.5, size=(nx, d)) * cell, rng.uniform(-0.5, 0.5, size=(ny, d)) * cell
+    elif where == "positive_cell":
+        X, Y = rng.uniform(0, 1, size=(nx, d)) * cell, rng.uniform(0, 1, size=(ny, d)) * cell
     half = bool(rng.random() < 0.2)
     if half:  # y_0 exactly half a cell away from x_0 along some coordinates
         X = np.round(X / cell * 4) / 4 * cell
@@ -45,6 +50,10 @@ def gen(rng, tier, index):
         Y[0] = X[0] + 0.5 * cell * rng.integers(0, 2, size=d) * rng.choice([-1, 1], size=d) + cell * rng.integers(-3, 4, size=d)
     npm = int(rng.integers(1, 4))
     P = np.stack([gens.spd(rng, d, cond=float(10.0 ** rng.uniform(0, 6))) for _ in range(npm)])
+    unit = 1.0
+    if rng.random() < 0.3:  # the same configuration measured in other units: lengths x u, precisions / u^2
+        unit = float(2.0 ** int(rng.integers(-12, 20)))
+        X, Y, cell, P = X * unit, Y * unit, cell * unit, P / unit**2
     return {
         "X": X,
         "Y": Y,
@@ -52,6 +61,8 @@ def gen(rng, tier, index):
         "kx": rng.integers(-5, 6, size=(nx, d)),
         "ky": rng.integers(-5, 6, size=(ny, d)),
         "Zp": rng.uniform(-3, 3, size=(int(rng.integers(1, 5)), d)) * cell,
+        "where": where,
+        "unit": unit,
         "P": P,
         "half": half,
     }
@@ -66,7 +77,11 @@ def run(case, j):
     X, Y, cell, kx, ky, Zp, P = case["X"], case["Y"], case["cell"], case["kx"], case["ky"], case["Zp"], case["P"]
     d = X.shape[1]
     aniso = float(cell.max() / cell.min())
-    j.tag(f"dim:{d}", "anisotropic" if aniso > 30 else "isotropic-ish", "half-cell" if case["half"] else "generic")
+    j.tag(f"dim:{d}", "anisotropic" if aniso > 30 else "isotropic-ish", "half-cell" if case["half"] else "generic", f"points:{case.get('where')}", "unit:1" if case.get("unit", 1.0) == 1.0 else "unit:other")
+    if case.get("where") in ("centred_cell", "positive_cell"):
+        j.note("all_points_inside_one_cell")
+    if case.get("unit", 1.0) > 1e3:
+        j.note("large_unit_precisions")
     diag = float(np.linalg.norm(cell))
     big = max(float(np.abs(X).max()), float(np.abs(Y).max()), float(np.abs(kx * cell).max()), 1e-300)
     tol = 1e-9 * (diag + big)
